@@ -1232,7 +1232,7 @@ CHECK = Check(
         "virtual service times, x TCP plain | TCP TLS | UDP, on the virtual-time loop over in-memory listeners (layer faults); real "
         "loopback connections reset with SO_LINGER 0 next to healthy ping-pong clients (layer rst); layer dead-connection: the faulty "
         "client's transport raises a persistent ETIMEDOUT/EHOSTUNREACH/ENETDOWN/ENETUNREACH or ECONNRESET/ECONNABORTED/EPIPE from a generated "
-        "time on while its handler is a tolerant idle-timeout or catch-all loop, next to 1-2 healthy echo clients, non-trivial = the error "
+        "time on, or (fault PARSE) it sends a burst of 3-3000 malformed frames in one segment, while its handler is a tolerant idle-timeout or catch-all loop, next to 1-2 healthy echo clients, non-trivial = the error "
         "was thrown into the handler at least twice; otherwise non-trivial = the fault fires while "
         "at least one healthy client has a request fed and not yet answered; distinct = sha1 of the canonical case JSON"
     ),
